@@ -111,8 +111,8 @@ def run_episode(env, actions, fold=None, np_seed=0, max_steps=None):
         warnings.simplefilter("ignore")
         kwargs = {"fold": fold} if fold is not None else {}
         obs = env.reset(**kwargs)
-        recs = [rec_of(env, obs, None, env._done, "reset")]
-        done = env._done
+        recs = [rec_of(env, obs, None, getattr(env, "_done", False), "reset")]
+        done = getattr(env, "_done", False)
         k = 0
         while not done and (max_steps is None or k < max_steps):
             a = np.array(actions[k % len(actions)], dtype=float)
@@ -132,7 +132,7 @@ def rec_of(env, obs, reward, done, kind):
         nlv = float(env.broker.net_liquidation_value(raise_if_broke=False))
     except Exception as e:
         nlv = "ERR:" + type(e).__name__
-    rb = env.exchange[env._broker_fees.interest_rate]
+    rb = env.exchange[env.broker.fees.interest_rate]
     tr = env.broker.track_record
     last = None
     if len(tr):
